@@ -3,6 +3,8 @@ package interp
 // Long-lived SMT solver processes driven over stdin/stdout with SMT-LIB2.
 
 import (
+	"os"
+	"sync"
 	"bufio"
 	"fmt"
 	"io"
@@ -53,11 +55,56 @@ type Solver struct {
 	tCheck time.Duration
 	// emitted-at-level bookkeeping: terms emitted at depth>base are forgotten on pop
 	levels []map[*Term]bool
+	seq    int
 }
+
+// asyncBuf drains the solver's output as it is produced (unbounded), so that
+// a solver that answers every definition with an error line can never fill
+// its pipe, block, and stop reading the definitions we are still writing.
+type asyncBuf struct {
+	mu   sync.Mutex
+	cond *sync.Cond
+	buf  []byte
+	err  error
+}
+
+func (a *asyncBuf) pump(r io.Reader) {
+	tmp := make([]byte, 1<<16)
+	for {
+		n, err := r.Read(tmp)
+		a.mu.Lock()
+		a.buf = append(a.buf, tmp[:n]...)
+		if err != nil {
+			a.err = err
+		}
+		a.cond.Broadcast()
+		a.mu.Unlock()
+		if err != nil {
+			return
+		}
+	}
+}
+
+func (a *asyncBuf) Read(p []byte) (int, error) {
+	a.mu.Lock()
+	defer a.mu.Unlock()
+	for len(a.buf) == 0 && a.err == nil {
+		a.cond.Wait()
+	}
+	if len(a.buf) == 0 {
+		return 0, a.err
+	}
+	n := copy(p, a.buf)
+	a.buf = a.buf[n:]
+	return n, nil
+}
+
+var solverSerial int64
 
 var SolverStats struct {
 	Checks   int64
 	NanosSum int64
+	Errors   int64
 }
 
 func NewSolver(spec SolverSpec) (*Solver, error) {
@@ -86,7 +133,15 @@ func NewSolver(spec SolverSpec) (*Solver, error) {
 	if err := cmd.Start(); err != nil {
 		return nil, err
 	}
-	s := &Solver{spec: spec, cmd: cmd, in: in, out: bufio.NewReaderSize(outp, 1<<16)}
+	ab := &asyncBuf{}
+	ab.cond = sync.NewCond(&ab.mu)
+	go ab.pump(outp)
+	s := &Solver{spec: spec, cmd: cmd, in: in, out: bufio.NewReaderSize(ab, 1<<16)}
+	if dir := os.Getenv("VCHECK_SOLVERLOG"); dir != "" {
+		if f, err := os.Create(fmt.Sprintf("%s/solver_%s_%d.smt2", dir, spec.Name, atomic.AddInt64(&solverSerial, 1))); err == nil {
+			s.Log = f
+		}
+	}
 	s.pr = &smtPrinter{sb: &s.sb, emitted: map[*Term]bool{}, intEnc: spec.IntEnc}
 	s.levels = []map[*Term]bool{{}}
 	if strings.HasPrefix(spec.Name, "z3") {
@@ -223,36 +278,58 @@ func (s *Solver) readResp() (string, error) {
 	}
 }
 
+// Every query is followed by an (echo) of a fresh marker and the answer is
+// whatever arrives before that marker: an error line produced by an earlier
+// definition can then neither be mistaken for this query's answer nor shift
+// the answers of later queries by one.  Any error line makes the answer
+// inconclusive.
+func (s *Solver) marker() string {
+	s.seq++
+	return fmt.Sprintf("vsync-%d", s.seq)
+}
+
 func (s *Solver) Check() (Result, error) {
 	s.flushDefs()
 	t0 := time.Now()
-	s.send("(check-sat)\n")
+	mk := s.marker()
+	s.send("(check-sat)\n(echo \"" + mk + "\")\n")
 	if s.dead {
 		return Unknown, fmt.Errorf("solver dead")
 	}
+	res, have := Unknown, false
+	var firstErr string
 	for {
 		resp, err := s.readResp()
-		d := time.Since(t0)
 		if err != nil {
 			return Unknown, err
 		}
+		if strings.Trim(resp, "\"") == mk {
+			break
+		}
 		switch resp {
 		case "sat":
-			s.account(d)
-			return Sat, nil
+			res, have = Sat, true
 		case "unsat":
-			s.account(d)
-			return Unsat, nil
+			res, have = Unsat, true
 		case "unknown", "timeout":
-			s.account(d)
-			return Unknown, nil
+			res, have = Unknown, true
 		}
-		if strings.HasPrefix(resp, "(error") {
-			s.account(d)
-			return Unknown, fmt.Errorf("solver: %s", resp)
+		if strings.HasPrefix(resp, "(error") && firstErr == "" {
+			firstErr = resp
 		}
 		// ignore other chatter
 	}
+	s.account(time.Since(t0))
+	if firstErr != "" {
+		if atomic.AddInt64(&SolverStats.Errors, 1) <= 3 {
+			fmt.Fprintf(os.Stderr, "SOLVER-ERROR (%s): %s\n", s.spec.Name, firstErr)
+		}
+		return Unknown, fmt.Errorf("solver: %s", firstErr)
+	}
+	if !have {
+		return Unknown, fmt.Errorf("solver: no answer")
+	}
+	return res, nil
 }
 
 func (s *Solver) account(d time.Duration) {
@@ -303,12 +380,24 @@ func (s *Solver) Model(vars []*Term) (Model, error) {
 		return m, nil
 	}
 	sb.WriteString("))\n")
-	s.send(sb.String())
-	resp, err := s.readResp()
-	if err != nil {
-		return nil, err
+	mk := s.marker()
+	s.send(sb.String() + "(echo \"" + mk + "\")\n")
+	resp := ""
+	for {
+		r, err := s.readResp()
+		if err != nil {
+			return nil, err
+		}
+		if strings.Trim(r, "\"") == mk {
+			break
+		}
+		if strings.HasPrefix(r, "(error") {
+			resp = r
+		} else if resp == "" && strings.HasPrefix(r, "(") {
+			resp = r
+		}
 	}
-	if strings.HasPrefix(resp, "(error") {
+	if strings.HasPrefix(resp, "(error") || resp == "" {
 		return nil, fmt.Errorf("solver: %s", resp)
 	}
 	sx, _, err := parseSExpr(resp, 0)
